@@ -9,6 +9,7 @@ import (
 	"fmt"
 	"html"
 	"io"
+	"math"
 	"reflect"
 	"sort"
 	"strconv"
@@ -498,10 +499,17 @@ func showInJS(env *env, out io.Writer, value any) error {
 		s = strconv.FormatInt(v.Int(), 10)
 	case reflect.Uint, reflect.Uint8, reflect.Uint16, reflect.Uint32, reflect.Uint64, reflect.Uintptr:
 		s = strconv.FormatUint(v.Uint(), 10)
-	case reflect.Float32:
-		s = strconv.FormatFloat(v.Float(), 'f', -1, 32)
-	case reflect.Float64:
-		s = strconv.FormatFloat(v.Float(), 'f', -1, 64)
+	case reflect.Float32, reflect.Float64:
+		switch f := v.Float(); {
+		case math.IsNaN(f):
+			s = "NaN"
+		case math.IsInf(f, 1):
+			s = "Infinity"
+		case math.IsInf(f, -1):
+			s = "-Infinity"
+		default:
+			s = strconv.FormatFloat(f, 'f', -1, v.Type().Bits())
+		}
 	case reflect.String:
 		_, err := w.WriteString("\"")
 		if err == nil {
@@ -710,10 +718,14 @@ func showInJSON(env *env, out io.Writer, value any) error {
 		s = strconv.FormatInt(v.Int(), 10)
 	case reflect.Uint, reflect.Uint8, reflect.Uint16, reflect.Uint32, reflect.Uint64, reflect.Uintptr:
 		s = strconv.FormatUint(v.Uint(), 10)
-	case reflect.Float32:
-		s = strconv.FormatFloat(v.Float(), 'f', -1, 32)
-	case reflect.Float64:
-		s = strconv.FormatFloat(v.Float(), 'f', -1, 64)
+	case reflect.Float32, reflect.Float64:
+		f := v.Float()
+		if math.IsNaN(f) || math.IsInf(f, 0) {
+			// JSON cannot represent NaN and the infinities.
+			s = "null"
+			break
+		}
+		s = strconv.FormatFloat(f, 'f', -1, v.Type().Bits())
 	case reflect.String:
 		_, err := w.WriteString("\"")
 		if err == nil {
